@@ -478,6 +478,32 @@ impl Exec for VolExec {
                         }
                     })
                 }
+                // ByteValued::from_slice / from_mut_slice over the host bytes [o, o+n) of the current slice
+                ("bv_from_slice", Cur::Mem(Src::Slice(s))) | ("bv_from_mut_slice", Cur::Mem(Src::Slice(s))) => {
+                    let (o, n, esz, al) = (g("o"), g("n"), g("esz"), g("al"));
+                    if o.checked_add(n).map_or(true, |e| e > s.len()) {
+                        skip()
+                    } else {
+                        let base = s.ptr_guard_mut().as_ptr();
+                        with_aligned_ty!(esz, al, T, {
+                            assert_eq!(std::mem::align_of::<T>(), al, "harness: alignment table");
+                            let r: Option<*const u8> = unsafe {
+                                if op == "bv_from_slice" {
+                                    <T as ByteValued>::from_slice(std::slice::from_raw_parts(base.add(o) as *const u8, n)).map(|x| x as *const T as *const u8)
+                                } else {
+                                    <T as ByteValued>::from_mut_slice(std::slice::from_raw_parts_mut(base.add(o), n)).map(|x| x as *const T as *const u8)
+                                }
+                            };
+                            match r {
+                                Some(p) => {
+                                    let v: T = unsafe { std::ptr::read_volatile(p as *const T) };
+                                    json!({"k": "ok", "off": self.off_of(p), "data": bv(&v)})
+                                }
+                                None => json!({"k": "none"}),
+                            }
+                        })
+                    }
+                }
                 // ---------------- Bytes<usize> ----------------
                 ("write", Cur::Mem(Src::Slice(s))) => match s.write(&bytes("buf"), g("addr")) {
                     Ok(n) => json!({"k": "ok", "n": n}),
